@@ -118,6 +118,12 @@ def call_value(ex, fv, node, st):
         return call_builtin(ex, fv.py[1], node, st)
     if kind == "class":
         return construct(ex, fv.py[1], node, st)
+    if kind == "abstract":
+        # a function-valued input known only through the axioms registered for the named uninterpreted function
+        args, _ = eval_args(ex, node, st)
+        reals = [to_float(a) for a in args]
+        f = z3.Function(fv.py[1], *([z3.RealSort()] * (len(reals) + 1)))
+        return vfloat(f(*[r for _, r in reals]), or_(*[n for n, _ in reals]))
     if kind == "lambda":
         lam, env = fv.py[1], fv.py[2]
         args, _ = eval_args(ex, node, st)
@@ -319,6 +325,8 @@ def call_builtin(ex, name, node, st):
         na, x = to_float(args[0])
         nb, y = to_float(args[1])
         return vfloat(mathlib.POW(x, y), or_(na, nb))
+    if name in ("np.real", "np.imag") and isinstance(args[0].kind, KComplex):
+        return vfloat(args[0].terms[0 if name.endswith("real") else 1])
     if name == "isinstance":
         return vbool(isinstance_(ex, args[0], node.args[1]))
     if name in ("np.zeros", "np.ones"):
